@@ -117,7 +117,12 @@ CLAIMS["C06"] = proof(
     "(C06_idle_nothing_pending), (b) no write guard and no announced writer/upgrader => no read() pending (C06_readers_not_blocked), (c) no write/upgradable guard and no announced writer => nothing waits for the inner mutex: no "
     "upgradable_read()/write() pending (C06_mutex_free_nothing_waits), (d) no guard alive => no write()/upgrade left announced (C06_writer_not_blocked). From the ownership invariant of the three events (lock_ops, no_readers, no_writer) "
     "+ three availability conditions (RwLive.v, ~1300 lines; reuses the generic mutex lemmas lock_poll_live/lock_drop_live and MutexFrame). The code proved is the repaired one (F1, F2, F3 fix commits): on the pre-fix tree the proof obligations "
-    "for downgrade_to_upgradable (A2) and for the reader cascade fail. Schedule half (threads, blocking forms) not proved. " + CORR, NOTE)
+    "for downgrade_to_upgradable (A2) and for the reader cascade fail. "
+    "Schedule half, clause (b) PROVED: C06_sched_readers — on the micro-step machine of coq/Sched/RwReadEvSched.v (WRITER_BIT and the event no_writer at atomic-action granularity; every poll of a read() future cut at its compare_exchange, listen, "
+    "the two loads of the word, the poll of the listener, notify(1) and the drop of the listener; writers abstract: the bit is set at any time it is clear and cleared at any time it is set, the clearing thread owing no_writer.notify(1); what a future saw when it "
+    "was created is arbitrary; spurious polls, cancellation) for EVERY schedule a state with the bit clear, nothing in flight and every woken future re-polled has no waiting read(); C06_sched_readers_prefix_refuted: the machine without the F2b repair loses a "
+    "wake-up on a schedule that needs a thread interleaving. Clause (c) at schedule level is the inner Mutex = C05_sched (restated as C06_sched_inner_mutex). Clause (d) (the single writer / upgrader on no_readers), the composition of the three "
+    "events under threads, and blocking forms: not proved, covered by tie lemmas and the loom scenario rw_downgrade_race. " + CORR, NOTE)
 CLAIMS["C12"] = proof(
     "History half proved: C12_writer_announced — quiescent, a polled write() or upgrade pending, no write/upgradable guard alive => a writer has announced itself (nH = 1, WRITER_BIT set); C12_bit_iff — WRITER_BIT is set exactly while a write "
     "guard is alive or a writer/upgrader is announced; C12_try_read_fails — then try_read returns None; C12_reader_blocked — then every poll of every read() future returns Pending (whatever its cached state, notified or not). The bit is "
